@@ -119,7 +119,10 @@ def run(chk, S: Session):
                     r3.require(R.args[0] is T.mk("getitem", (sp, 1)) and st is T.mk("getitem", (sp, 0)), f"{cls}.{meth} key", "draw with split(key)[1], return split(key)[0]", f"draw key {T.show(R.args[0], 3)}, returned {T.show(st, 3)}", JAC, cfg)
             else:
                 r2.require(not rads, f"{cls}.{meth} deterministic", "no probes", f"{len(rads)} draws", JAC, cfg)
-                r3.require(st is state, f"{cls}.{meth} state", "state passed through", f"{T.show(st, 2)}", JAC, cfg)
+                # a method that draws nothing may return its state unchanged (what the library does) or advance the key anyway (the literal reading of
+                # "advance their random key on every call"): both keep every later draw independent of the earlier ones
+                advanced = isinstance(st, T.Term) and st.op == "getitem" and isinstance(st.args[0], T.Term) and st.args[0].op == "random.split" and st.args[0].args[0] is state
+                r3.require(st is state or advanced, f"{cls}.{meth} state", "state passed through (no draw) or advanced by a split", f"{T.show(st, 2)}", JAC, cfg)
             if len(chk.samples) < 6:
                 chk.sample({"config": cfg, "fx": sf, "J": sj})
     # seen from the solver: each step hands the constraint state (the key) on -- first linearisation from state.auxiliary, later ones from
